@@ -10,11 +10,18 @@
 
 namespace sim {
 
+std::string respell_line(Rng &r, const std::string &line);  // gen.cc
+
 namespace {
 
 const std::string &ltext(int idx) { return corpus_all()[idx].text; }
 
+std::string any_instr_plain(Rng &r);
 std::string any_instr(Rng &r) {
+  std::string l = any_instr_plain(r);
+  return r.chance(1, 10) ? respell_line(r, l) : l;
+}
+std::string any_instr_plain(Rng &r) {
   unsigned w = (unsigned)r.below(100);
   if (w < 50) return ltext(r.pick(corpus_instr()));
   if (w < 75) {
